@@ -36,6 +36,16 @@ def floors(tier):
                                               "sub_spread_evals": 500, "rot_steps": 1500, "exact_evals": 1000, "empty_target_calls": 150, "inrun_calls": 3000, "inrun_target_evals": 5000}, "max_undecided_frac": 0.3}
 
 
+def unit_cost(sec, kind):
+    """one trading unit plus what trading that unit would cost (a unit whose fee does not fit the budget is legitimately not bought)"""
+    px = sec.price
+    if not (px == px):
+        return 0.0
+    u = abs(px * sec.multiplier)
+    bo = sec._bidoffer if sec._bidoffer_set else 0.0
+    return u + abs(ins.fee(kind, 1, u)) + 0.5 * abs(bo) * sec.multiplier
+
+
 def call_costs(events, root, kind):
     c = 0.0
     n = 0
@@ -135,9 +145,9 @@ def case_rebalance(cs):
                         common.bump(cnt, "exact_evals")
                         tol = 1e-9 * (1 + abs(T) + abs(V0))
                     elif isinstance(c, SecurityBase):
-                        tol = (c.price * c.multiplier if integer else 0.0) + 2 * costs + 1e-6 * (1 + abs(T))
+                        tol = (unit_cost(c, kind) if integer else 0.0) + 2 * costs + 1e-6 * (1 + abs(T))
                     else:
-                        slack = sum(x.price * x.multiplier for x in c.children.values()) if integer else 0.0
+                        slack = sum(unit_cost(x, kind) for x in c.members if isinstance(x, SecurityBase)) if integer else 0.0
                         tol = slack + 2 * costs + 1e-6 * (1 + abs(T))
                     if not abs(v - T) <= tol:
                         return common.result(common.VIOL, sig=sig, nt=True, cnt=cnt, mech="c06_target_missed",
@@ -326,9 +336,9 @@ class InRunCtx(mon2.SharedCtx):
                 px = c.price
                 if not (px == px) or px == 0:
                     continue
-                tol = 1e-9 * (1 + abs(T) + abs(V0)) if exact else ((px * c.multiplier if self.integer else 0.0) + 2 * costs + 1e-6 * (1 + abs(T)))
+                tol = 1e-9 * (1 + abs(T) + abs(V0)) if exact else ((unit_cost(c, self.kind) if self.integer else 0.0) + 2 * costs + 1e-6 * (1 + abs(T)))
             else:
-                slack = sum(abs(x.price * x.multiplier) for x in c.members if isinstance(x, SecurityBase) and x.price == x.price) if self.integer else 0.0
+                slack = sum(unit_cost(x, self.kind) for x in c.members if isinstance(x, SecurityBase)) if self.integer else 0.0
                 tol = 1e-9 * (1 + abs(T) + abs(V0)) if exact else (slack + 2 * costs + 1e-6 * (1 + abs(T)))
             v = c.value
             if not abs(v - T) <= tol:
